@@ -36,9 +36,13 @@ def jobs_for(tier, rng):
     # beyond the default iteration limit (2000): integer-valued undiscounted rings never leave the 32-bit range
     for k in range(1 if tier == "quick" else 3):
         m = gen.ring(rng, rng.randint(3, 5), extra=rng.randint(3, 4), v0max=1, rmax=2)
-        jobs.append({"mdp": m, "kind": "SAVI", "gamma": [1, 1], "eps": [1, 12], "test": "span",
+        for a in range(m["na"]):
+            m["rew"][0][a] = [6]          # unequal rewards around the ring: the span of successive differences never falls
+        jobs.append({"mdp": m, "kind": "SAVI", "gamma": [1, 1], "eps": [1, 12], "test": "max_diff",
+                     # positive gain: the largest change never falls below epsilon (a Gauss-Seidel sweep would let the
+                     # span of the changes collapse)
                      "calls": [2100] if k == 0 else [1200, 900, 50], "mbs": 2, "shuffle": True, "seed": 100 + k,
-                     "tag": f"savi-long{k}"})
+                     "tag": f"savi-long{k}", "min_sweeps": 2050})
     return jobs
 
 
